@@ -61,7 +61,11 @@ pub fn key_addr(seed: u16) -> Address {
 
 impl World {
     pub fn new(policy: Policy) -> World {
-        let reward_total = TokenAmount::from_whole(1_100_000_000i64);
+        Self::new_with(policy, TokenAmount::from_whole(1_100_000_000i64))
+    }
+
+    /// `reward_total`: what the reward actor holds at genesis (small values reach the 'pays only what it holds' branch)
+    pub fn new_with(policy: Policy, reward_total: TokenAmount) -> World {
         let faucet_total = TokenAmount::from_whole(900_000_000i64);
         let v = SimVM::new(policy);
         *v.circ_supply.borrow_mut() = &reward_total + &faucet_total;
